@@ -389,6 +389,7 @@ func (rn *runner) checkLocation(i int, endpoint, family string, rs *sut.Resp, al
 	kc.Location = trunc(loc, 600)
 	hosts := map[string]bool{}
 	idpAll := true
+	violated := false
 	for _, rd := range rds {
 		rep.Count("reading_"+rd.Kind, 1)
 		for _, f := range rd.Flags {
@@ -407,6 +408,10 @@ func (rn *runner) checkLocation(i int, endpoint, family string, rs *sut.Resp, al
 		rep.Count("location_host_"+class, 1)
 		switch v {
 		case domOut:
+			if violated {
+				break // one witness per response
+			}
+			violated = true
 			rep.Violate(stream, i, fmt.Sprintf("open-redirect %s via=%s host=%s", endpoint, family, class),
 				fmt.Sprintf("%s answered %d with a Location whose host (%s reading: %q) is outside the root domains %v", endpoint, rs.Status, rd.Mode, trunc(rd.Host, 80), rn.cfg.Roots), kc)
 		case domDontCare:
